@@ -568,7 +568,7 @@ META = {
                   'quotient, power, parenthesised variants) and a symbolic enclosing precedence: the returned text, parsed '
                   'with the Fortran expression grammar, must denote the node (tdiv and pow uninterpreted, only associativity '
                   'of + and * admitted), every child text must bind tightly enough for its position, and the text must be '
-                  'parenthesised whenever the context binds tighter (the contract the recursive calls rely on).',
+                  'parenthesised whenever the context binds tighter (the contract the recursive calls rely on). Summands of map_sum include negated leaves, negated sums and negated quotients; the operand of a sign must bind tighter than + and -.',
     'level_note': 'Known finding: a quotient as a non-first factor of a product is printed without parentheses (a*b / c). '
                   'Bounded and stated: nodes have two children (n-ary sums / products are printed by the same join over the '
                   'children); a sign directly after an operator (a*-b) is accepted as gfortran does. Trusted: pyvc engine; the '
